@@ -125,3 +125,44 @@ Proof.
     unfold Rdiv in Hz. apply Rmult_integral in Hz. destruct Hz; lra.
   - rewrite Hq. unfold Rdiv. rewrite Rminus_diag_eq by reflexivity. lra.
 Qed.
+
+(* ---------- uniform_partition_fromgrid with explicit limits (dict / sequence arguments) ---------- *)
+Definition fromgrid_lo (cs : Rvec) (omin : option R) : R :=
+  match omin with Some v => v | None => nthR 0 cs - (nthR 1 cs - nthR 0 cs) / 2 end.
+Definition fromgrid_hi (cs : Rvec) (omax : option R) : R :=
+  match omax with
+  | Some v => v
+  | None => nthR (length cs - 1) cs + (nthR (length cs - 1) cs - nthR (length cs - 2) cs) / 2
+  end.
+Lemma fromgrid_axis_spec (cs : Rvec) (omin omax : option R) : (2 <= length cs)%nat ->
+  fromgrid_axis cs omin omax = Ok (mkAxis (fromgrid_lo cs omin) (fromgrid_hi cs omax) cs).
+Proof.
+  intros Hn. unfold fromgrid_axis, fromgrid_lo, fromgrid_hi.
+  assert (E : exists a b r, cs = a :: b :: r).
+  { destruct cs as [|a [|b r]]; cbn [length] in Hn; try lia. eauto. }
+  destruct E as (a & b & r & E).
+  assert (H1 : match cs with c0 :: c1 :: _ => Ok (c0 - (c1 - c0) / ntwo)%num | _ => @ValueErr R end
+               = Ok (nthR 0 cs - (nthR 1 cs - nthR 0 cs) / 2)).
+  { rewrite E. cbn [nth]. numR'. reflexivity. }
+  assert (H2 : match cs with _ :: _ :: _ => Ok (last0 cs + last_gap cs / ntwo)%num | _ => @ValueErr R end
+               = Ok (nthR (length cs - 1) cs + (nthR (length cs - 1) cs - nthR (length cs - 2) cs) / 2)).
+  { rewrite last_gap_eq by exact Hn. unfold last0. rewrite last_nth. rewrite E at 1. numR'. reflexivity. }
+  destruct omin, omax; cbn [bind]; rewrite ?H1, ?H2; cbn [bind]; reflexivity.
+Qed.
+(* the result is accepted by RectPartition iff the given limits enclose the grid *)
+Lemma fromgrid_axis_valid (cs : Rvec) (omin omax : option R) : sincr cs -> (2 <= length cs)%nat ->
+  (forall v, omin = Some v -> v <= nthR 0 cs) ->
+  (forall v, omax = Some v -> nthR (length cs - 1) cs <= v) ->
+  valid (mkAxis (fromgrid_lo cs omin) (fromgrid_hi cs omax) cs).
+Proof.
+  intros Hs Hn Hlo Hhi. destruct (gaps_pos cs Hs Hn) as (H1 & H2 & H3 & H4).
+  assert (Ha : fromgrid_lo cs omin <= nthR 0 cs).
+  { unfold fromgrid_lo. destruct omin as [v|]; [apply Hlo; reflexivity | lra]. }
+  assert (Hb : nthR (length cs - 1) cs <= fromgrid_hi cs omax).
+  { unfold fromgrid_hi. destruct omax as [v|]; [apply Hhi; reflexivity | lra]. }
+  constructor; cbn [a_lo a_hi a_cs]; auto; try lia; lra.
+Qed.
+Lemma fromgrid_axis_single (c : R) (omax : option R) : fromgrid_axis [c] None omax = ValueErr.
+Proof. reflexivity. Qed.
+Lemma fromgrid_axis_single_given (c lo hi : R) : fromgrid_axis [c] (Some lo) (Some hi) = Ok (mkAxis lo hi [c]).
+Proof. reflexivity. Qed.
